@@ -44,6 +44,10 @@ func NewRegexpStringSearcher(ctx context.Context, indexReader index.IndexReader,
 		if err != nil {
 			return nil, err
 		}
+		// the candidate test below asks whether the match found at offset 0
+		// covers the entire term; with leftmost-first semantics an
+		// alternation such as a|ab stops at "a" and the term "ab" is missed
+		r.Longest()
 
 		return NewRegexpSearcher(ctx, indexReader, r, field, boost, options)
 	}
